@@ -152,11 +152,16 @@ Definition phase_step (croute : bool) (s : cst) (e : cevent) : cst * list action
 
 Inductive rstatus := Running | Returned | Crashed.
 
-(* one iteration of dclient.Run: the state function, then the limiter.  A cancelled context makes Run return. *)
+(* one iteration of dclient.Run: the state function, then the limiter.  A cancelled context makes Run return - also from
+   the 20 s pause before the limiter's fatal exit (repair F11: the pause watches the context). *)
 Definition run_iter (croute : bool) (s : cst) (e : cevent) (cancelled : bool) : cst * list action * rstatus :=
   let (s1, acts) := phase_step croute s e in
   let tok := refill (c_tokens s) (c_now s1 - c_now s) in
   if tok <? ns_s then
+    if cancelled then
+      ({| c_phase := c_phase s1; c_now := c_now s1; c_last := c_last s1; c_t1 := c_t1 s1; c_t2 := c_t2 s1; c_tx := c_tx s1; c_tokens := tok |},
+       acts ++ [AReturn (c_now s1)], Returned)
+    else
     ({| c_phase := c_phase s1; c_now := c_now s1 + 20 * ns_s; c_last := c_last s1; c_t1 := c_t1 s1; c_t2 := c_t2 s1; c_tx := c_tx s1; c_tokens := tok |},
      acts ++ [ACrash (c_now s1 + 20 * ns_s)], Crashed)
   else
